@@ -191,6 +191,22 @@ func (e *Engine) rollback(s snapshot) {
 	e.declName = e.declName[:s.nd]
 	e.assumps = e.assumps[:s.na]
 	e.obls = e.obls[:s.no]
+	// spec functions declared since the snapshot must be re-instantiated when used again
+	for id, inst := range e.specDone {
+		if inst.defined && !e.declared[inst.fname] {
+			delete(e.specDone, id)
+		}
+	}
+	// string constants declared since the snapshot are forgotten too
+	var keep []string
+	for _, str := range e.strOrder {
+		if e.declared[e.strConsts[str].S] {
+			keep = append(keep, str)
+		} else {
+			delete(e.strConsts, str)
+		}
+	}
+	e.strOrder = keep
 }
 
 func (e *Engine) note(format string, args ...interface{}) {
